@@ -92,7 +92,7 @@ RCP<const Basic> Infty::conjugate() const
     if (is_positive_infinity() or is_negative_infinity()) {
         return infty(_direction);
     }
-    return ComplexInf;
+    return make_rcp<const Conjugate>(ComplexInf);
 }
 
 RCP<const Number> Infty::add(const Number &other) const
